@@ -413,4 +413,105 @@ theorem commandReserve_none {tab tab' : Option Table} {w : Nat} (h : commandRese
       · cases h
 
 
+/- ---------- when `mpt_command_reserve` must succeed ---------- -/
+theorem exists_not_mem_of_length_lt {α} [DecidableEq α] (L c : List α) (hc : c.Nodup) (hl : L.length < c.length) :
+    ∃ x, x ∈ c ∧ x ∉ L := by
+  induction L generalizing c with
+  | nil =>
+    cases c with
+    | nil => simp at hl
+    | cons x r => exact ⟨x, by simp, by simp⟩
+  | cons a L' ih =>
+    have hlen : L'.length < (c.erase a).length := by
+      rw [List.length_erase]
+      simp only [List.length_cons] at hl
+      split <;> omega
+    obtain ⟨x, hx, hn⟩ := ih (c.erase a) (hc.erase a) hlen
+    have := (List.Nodup.mem_erase_iff hc).mp hx
+    exact ⟨x, this.2, by simp [this.1, hn]⟩
+
+theorem nodup_map_of_inj_on {α β} {f : α → β} {l : List α} (hl : l.Nodup)
+    (hf : ∀ a, a ∈ l → ∀ b, b ∈ l → f a = f b → a = b) : (l.map f).Nodup := by
+  unfold List.Nodup at *
+  rw [List.pairwise_map]
+  exact List.Pairwise.imp_of_mem (fun ha hb hne h => hne (hf _ ha _ hb h)) hl
+
+theorem lowIds_nodup (n : Nat) : (lowIds n).Nodup := by
+  unfold lowIds
+  exact nodup_map_of_inj_on List.nodup_range (by intro a _ b _ h; omega)
+
+theorem mem_lowIds {n x : Nat} : x ∈ lowIds n ↔ 1 ≤ x ∧ x ≤ n := by
+  unfold lowIds
+  simp only [List.mem_map, List.mem_range]
+  constructor
+  · rintro ⟨a, ha, rfl⟩; omega
+  · intro h; exact ⟨x - 1, by omega, by omega⟩
+
+/-- "try to find low free id" succeeds whenever some id in `1..max` is free: cutting the search after `used + 1`
+    candidates (as the model does) loses nothing, because that many candidates cannot all be taken -/
+theorem lowFreeId_some {slots : List Slot} {max i : Nat} (hmax : max ≤ 9223372036854775807) (h1 : 1 ≤ i) (h2 : i ≤ max)
+    (hfree : ∀ r, (UInt64.ofNat i, r) ∉ liveL slots) : ∃ m, lowFreeId slots max = some m := by
+  unfold lowFreeId
+  cases hf : (lowIds (min max (slots.length + 1))).find? fun i => (commandFind slots (UInt64.ofNat i)).isNone with
+  | some m => exact ⟨m, rfl⟩
+  | none =>
+    exfalso
+    rw [List.find?_eq_none] at hf
+    have hall : ∀ x, 1 ≤ x → x ≤ min max (slots.length + 1) → ∃ s, s ∈ slots ∧ s.live = true ∧ s.id = UInt64.ofNat x := by
+      intro x hx1 hx2
+      have := hf x (mem_lowIds.mpr ⟨hx1, hx2⟩)
+      simp only [Option.isNone_iff_eq_none] at this
+      cases hc : commandFind slots (UInt64.ofNat x) with
+      | none => exact absurd hc this
+      | some j =>
+        obtain ⟨s, hs, hl, hid⟩ := commandFind_some hc
+        exact ⟨s, List.mem_of_getElem? hs, hl, hid⟩
+    by_cases hcase : max ≤ slots.length + 1
+    · obtain ⟨s, hs, hl, hid⟩ := hall i h1 (by omega)
+      apply hfree s.arg
+      rw [mem_liveL]
+      exact ⟨s, hs, hl, by rw [hid]⟩
+    · -- more candidates than elements
+      have hnd : ((lowIds (slots.length + 1)).map UInt64.ofNat).Nodup := by
+        apply nodup_map_of_inj_on (lowIds_nodup _)
+        intro a ha b hb hab
+        rw [mem_lowIds] at ha hb
+        have ha' : a < 2 ^ 64 := by omega
+        have hb' : b < 2 ^ 64 := by omega
+        have := congrArg UInt64.toNat hab
+        rw [UInt64.toNat_ofNat', UInt64.toNat_ofNat'] at this
+        omega
+      obtain ⟨y, hy, hny⟩ := exists_not_mem_of_length_lt (slots.map (·.id)) _ hnd (by simp [lowIds])
+      simp only [List.mem_map] at hy
+      obtain ⟨x, hx, rfl⟩ := hy
+      rw [mem_lowIds] at hx
+      obtain ⟨s, hs, _, hid⟩ := hall x hx.1 (by omega)
+      apply hny
+      simp only [List.mem_map]
+      exact ⟨s, hs, hid⟩
+
+/-- `mpt_command_reserve` must succeed whenever the width class is valid and some id of its range is free -/
+theorem commandReserve_succeeds (tab : Option Table) (w i : Nat) (hw : widthMax w ≠ 0) (h1 : 1 ≤ i) (h2 : i ≤ widthMax w)
+    (hfree : ∀ r, (UInt64.ofNat i, r) ∉ liveList tab) : ∃ tab' idx, commandReserve tab w = (tab', some idx) := by
+  unfold commandReserve
+  simp only [hw, if_false]
+  cases tab with
+  | none => exact ⟨_, _, rfl⟩
+  | some t =>
+    simp only
+    obtain ⟨htake, _⟩ := compactLoop_spec t.slots
+    generalize compactLoop ⟨t.slots, none, 0, 0⟩ 0 t.slots.length = st at htake
+    by_cases hmid : st.mid.toNat ≥ widthMax w
+    · simp only [hmid, if_true]
+      have hfree' : ∀ r, (UInt64.ofNat i, r) ∉ liveL (st.slots.take st.used) := by
+        intro r
+        rw [htake, liveL_filter]
+        exact hfree r
+      obtain ⟨m, hm⟩ := lowFreeId_some (widthMax_le w) h1 h2 hfree'
+      rw [hm]
+      exact ⟨_, _, rfl⟩
+    · simp only [hmid, if_false]
+      exact ⟨_, _, rfl⟩
+
+
 end Mpt.Dispatch
